@@ -320,6 +320,7 @@ func (v *Verifier) VerifyFunc(key string, c *Contract, class map[string]string) 
 			if i < len(names) {
 				r.T = resolve(fn.Signature.Results().At(i).Type(), env)
 				vars[names[i]] = r
+				vars[genericResultName(i, len(names))] = r
 			}
 		}
 		se := &SpecEnv{e: e, st: st, old: e.entry, fr: e.rootFr, vars: vars, env: env, pkg: c.Pkg}
